@@ -81,8 +81,16 @@ func TestVerif_C19_Confinement(t *testing.T) {
 	// a group that may record, with a recording directory holding one file
 	rig.writeGroup("c19rec", map[string]any{"allow-recording": true, "users": map[string]any{"op": map[string]any{"password": "oppw", "permissions": "op"}}})
 	os.MkdirAll(filepath.Join(rig.rec, "c19rec"), 0o755)
+	// other groups' recordings: a subgroup of c19rec with its own definition and users, and an unrelated group
+	rig.writeGroup("c19rec/private", map[string]any{"allow-recording": true, "users": map[string]any{"boss": map[string]any{"password": "bosspw", "permissions": "op"}}})
+	rig.writeGroup("c19other", map[string]any{"allow-recording": true, "users": map[string]any{"boss": map[string]any{"password": "bosspw", "permissions": "op"}}})
+	others := []string{filepath.Join(rig.rec, "c19rec", "private", "rec.webm"), filepath.Join(rig.rec, "c19other", "rec.webm")}
 	rapid.Check(t, func(t *rapid.T) {
 		os.WriteFile(filepath.Join(rig.rec, "c19rec", "a.webm"), []byte("recording"), 0o644)
+		for _, o := range others {
+			os.MkdirAll(filepath.Dir(o), 0o755)
+			os.WriteFile(o, []byte("somebody else's recording"), 0o644)
+		}
 		before := rig.outsideHash()
 		kind := rapid.SampledFrom([]string{"static", "static", "group", "group-status", "whip", "recordings", "recordings", "rec-delete", "api-group", "api-user", "api-put", "ws-join"}).Draw(t, "kind")
 		hp := hostilePath(t, "path")
@@ -114,6 +122,11 @@ func TestVerif_C19_Confinement(t *testing.T) {
 			hdr["Authorization"] = basic("op", "oppw")
 			hdr["Content-Type"] = "application/x-www-form-urlencoded"
 			fn := hp
+			if rapid.IntRange(0, 2).Draw(t, "towardsOtherGroups") == 0 {
+				hp = rapid.SampledFrom([]string{"private/rec.webm", "./private/rec.webm", "private//rec.webm", "private/../private/rec.webm", "../c19other/rec.webm", "a/../../c19other/rec.webm",
+					"/private/rec.webm", "private%2frec.webm", "private\\rec.webm"}).Draw(t, "otherGroupsFile")
+				fn = hp
+			}
 			if rapid.Bool().Draw(t, "rawName") {
 				fn = strings.NewReplacer("%2e", ".", "%2E", ".", "%2f", "/", "%5c", "\\", "%00", "\x00").Replace(hp)
 			}
@@ -171,8 +184,17 @@ func TestVerif_C19_Confinement(t *testing.T) {
 			}
 			status = resp.Status
 			respBody = resp.Body
+			if strings.Contains(string(resp.Body), "somebody else's recording") {
+				t.Fatalf("C19/C17: %s %q served a recording of another group (no request here carries that group's credentials)", method, target)
+			}
 			if strings.Contains(string(resp.Body), sentinelSecret) {
 				t.Fatalf("C19: %s %q served content from outside the roots (status %d)", method, target, resp.Status)
+			}
+		}
+		// the recordings of other groups are none of this request's business (it carries at most the rights of c19rec's operator)
+		for _, o := range others {
+			if _, err := os.Stat(o); err != nil {
+				t.Fatalf("C19: %s %q (%s, body %q) removed %s, a recording of another group", method, target, kind, body, strings.TrimPrefix(o, rig.rec))
 			}
 		}
 		if after := rig.outsideHash(); after != before {
